@@ -32,7 +32,7 @@ CLAIM = dict(
           "that error. The model is tied to the code on every run: all strings up to length 3 (quick: +length 4 over the reduced "
           "alphabet; thorough: length 4 full, length 5 reduced) over the critical alphabet x 5 quote styles by digest, plus random "
           "long texts through the encoder and random raw literals, against the real lexer, parser (导入《…》) and interpreter "
-          "(输出“…”)."),
+          "(输出“…”), the latter also with a second literal following directly as the next statement (each literal keeps its own content)."),
     note=TB + ("Go's string(runes) (invalid code points -> U+FFFD) and strconv.ParseInt(s,16,32) (saturation at MaxInt32) are restated "
                "in Gallina and validated by the differential run. Digest comparison of exhaustive blocks can miss a difference only by "
                "a 63-bit hash collision. ‘…’/『…』 literals are lexed but no grammar rule consumes them, so they are compared at token "
